@@ -84,11 +84,22 @@ def gen_case(rng, tier, g):
 
 
 def _gen_case(rng, tier, g):
+    case = _gen_case_(rng, tier, g, None)
+    if rng.random() < 0.012:
+        # a table of several hundred rows with buffer sizes in the hundreds
+        # (a comparison that only holds for small numbers - an identity test
+        # on ints, a one-byte counter - shows beyond 256)
+        case = _gen_case_(rng, tier, g, rng.choice([300, 520, 700]))
+    return case
+
+
+def _gen_case_(rng, tier, g, big):
     maxrows = 8 if tier == 'quick' else 12
     op = 'sort' if rng.random() < 0.6 else 'mergesort'
     nf = rng.randint(1, 4)
     if op == 'sort':
-        tables = [gen_sort_table(rng, maxrows, nfields=nf)]
+        tables = [gen_sort_table(rng, big or maxrows, nfields=nf,
+                                 minrows=big - 40 if big else 0)]
         hdr_arg, missing, presorted = None, None, False
         perms = None
     else:
@@ -146,7 +157,7 @@ def _gen_case(rng, tier, g):
                      ['ARM', si, rng.choice([1, 2, max(1, ni // 2), ni,
                                              ni + 1]), 1,
                       rng.choice(SOURCE_ERROR_KINDS)])
-    sweep = rng.random() < 0.2
+    sweep = rng.random() < 0.2 and not big
     if sweep:
         # configuration enumeration: the same input under EVERY buffersize
         # 1..n+2 and None x cache on/off, two passes each
@@ -163,7 +174,9 @@ def _gen_case(rng, tier, g):
     return {'prop': PROP, 'op': op, 'tables': tables, 'perms': perms,
             'sweep': sweep, 'inner': inner,
             'key': key, 'reverse': rng.random() < 0.35,
-            'buffersize': _bufsizes(rng, n0 if op == 'sort' else max(n0, 1)),
+            'buffersize': rng.choice([255, 256, 257, 258, 300, n0 - 1, n0])
+            if big and op == 'sort'
+            else _bufsizes(rng, n0 if op == 'sort' else max(n0, 1)),
             'cache': rng.random() < 0.7, 'tempdir': rng.random() < 0.4,
             'cfg': rng.choice([None, None, None, 1, 2, 3]),
             'missing': missing, 'header': hdr_arg, 'presorted': presorted,
